@@ -9,6 +9,7 @@ package verifharness
 
 import (
 	"context"
+	"encoding/base64"
 	"errors"
 	"fmt"
 	"io"
@@ -64,7 +65,7 @@ func pow8(i int) int64 {
 func svKvTok(kvs []*goatorepo.KeyValue) int64 {
 	var tok int64
 	for _, kv := range kvs {
-		if kv.Key == "seq" || strings.EqualFold(kv.Key, "grpc-timeout") {
+		if kv.Key == "seq" || strings.EqualFold(kv.Key, "grpc-timeout") || strings.HasSuffix(strings.ToLower(kv.Key), "-bin") {
 			continue
 		}
 		var i int
@@ -79,7 +80,7 @@ func svKvTok(kvs []*goatorepo.KeyValue) int64 {
 func svMDTok(md metadata.MD) int64 {
 	var tok int64
 	for k, vs := range md {
-		if k == "seq" || k == "grpc-timeout" {
+		if k == "seq" || k == "grpc-timeout" || strings.HasSuffix(k, "-bin") {
 			continue
 		}
 		var i int
@@ -175,6 +176,12 @@ func svMdvCoq(s string) string {
 		return "None"
 	case s == "bad":
 		return "(Some MdBad)"
+	case strings.HasPrefix(s, "bin:") || strings.HasPrefix(s, "BIN:"):
+		// a "-bin" metadata value: decodable iff it is padded URL-safe base64 (encoding/base64, the harness's own call)
+		if _, err := base64.URLEncoding.DecodeString(s[4:]); err != nil {
+			return "(Some MdBad)"
+		}
+		return "(Some (MdOk 0))"
 	}
 	var n int64
 	fmt.Sscanf(s, "ok:%d", &n)
@@ -203,6 +210,10 @@ func (f *FrameSpec) build(seq int) *Rpc {
 		h := &goatorepo.RequestHeader{Method: f.Method, Source: f.Src, Destination: f.Dst}
 		if f.Hdr == "bad" {
 			h.Headers = append(h.Headers, badMD...)
+		} else if strings.HasPrefix(f.Hdr, "bin:") {
+			h.Headers = append(h.Headers, &goatorepo.KeyValue{Key: "x-bin", Value: f.Hdr[4:]})
+		} else if strings.HasPrefix(f.Hdr, "BIN:") {
+			h.Headers = append(h.Headers, &goatorepo.KeyValue{Key: "Trace-BIN", Value: f.Hdr[4:]})
 		} else {
 			var n int64
 			fmt.Sscanf(f.Hdr, "ok:%d", &n)
